@@ -1128,6 +1128,8 @@ class Engine:
             if key not in st.store:
                 st.store[key] = None
                 st.store[key] = self.structured_const(j['ref'], st)
+            if j.get('dyn_of'):
+                return ('dyn', ('ref', key, ()), j['dyn_of'])      # a trait object in a constant: the vtable names the concrete type
             return ('ref', key, ())
         if 'static_ref' in j:
             if j.get('offset'):
